@@ -43,6 +43,21 @@ type obsStats struct {
 // callbacks (which callback, with which arguments, in which order): part of the observable result.
 var callLog *strings.Builder
 
+// descStyle is the description style of the scenario being executed (Scenario.DescStyle).
+var descStyle int
+
+func describe(s string) string {
+	switch descStyle {
+	case 1:
+		return s + "\n\tsecond line, indented with a tab\nthird line"
+	case 2:
+		return s + " 100% %s %d %v %[1]q"
+	case 3:
+		return s + strings.Repeat(" and a very long explanation that goes on", 6)
+	}
+	return s
+}
+
 // reparseProbe (off; VERIF_REPARSE=1 turns it on): also Parse+Dispatch a second time on the same object.
 // On the pinned code a GetOpt object is single-use - a second Parse appends to the remaining arguments of the
 // first - so C20 ("two runs of the same definition") is read as "two freshly built objects"; DESIGN §14.3.
@@ -84,7 +99,7 @@ func define(o *getoptions.GetOpt, d OptDef) {
 	if d.ArgName != "" {
 		fns = append(fns, o.ArgName(d.ArgName))
 	}
-	fns = append(fns, o.Description("desc of "+d.Name))
+	fns = append(fns, o.Description(describe("desc of "+d.Name)))
 	switch d.Kind {
 	case 0:
 		o.Bool(d.Name, false, fns...)
@@ -183,7 +198,7 @@ func build(o *getoptions.GetOpt, c *CmdDef, path string, ran *string, nodes *[]n
 	*nodes = append(*nodes, node{path, o, c})
 	for i := range c.Subs {
 		s := &c.Subs[i]
-		build(o.NewCommand(s.Name, "about "+s.Name), s, path+"/"+s.Name, ran, nodes)
+		build(o.NewCommand(s.Name, describe("about "+s.Name)), s, path+"/"+s.Name, ran, nodes)
 	}
 	for _, d := range c.LateOpts {
 		define(o, d)
@@ -278,6 +293,7 @@ func observeArgv(sc *Scenario, ord Order, st *obsStats, shared []string) (out st
 					opt.SetMapKeysToLower()
 				}
 				ran := ""
+				descStyle = sc.DescStyle
 				sharedVars = map[*getoptions.GetOpt]*[3]string{}
 				defer func() { sharedVars = nil }()
 				var calls strings.Builder
@@ -286,10 +302,14 @@ func observeArgv(sc *Scenario, ord Order, st *obsStats, shared []string) (out st
 				var nodes []node
 				build(opt, &sc.Root, "prog", &ran, &nodes)
 				if sc.Help {
+					hn := "help"
+					if sc.HelpName != "" {
+						hn = sc.HelpName
+					}
 					if sc.HelpAlias {
-						opt.HelpCommand("help", opt.Alias("?"))
+						opt.HelpCommand(hn, opt.Alias("?"))
 					} else {
-						opt.HelpCommand("help")
+						opt.HelpCommand(hn)
 					}
 				}
 				argv := sc.Argv
@@ -745,6 +765,18 @@ func shrink(sc *Scenario, d *disagreement, seed uint64, budget time.Duration) (*
 			work.HelpAlias = false
 			try()
 			work.HelpAlias = true
+		}
+		if work.HelpName != "" {
+			s := work.HelpName
+			work.HelpName = ""
+			try()
+			work.HelpName = s
+		}
+		if work.DescStyle != 0 {
+			s := work.DescStyle
+			work.DescStyle = 0
+			try()
+			work.DescStyle = s
 		}
 		if work.Lower {
 			work.Lower = false
